@@ -48,6 +48,10 @@ def mk(s):
         return E(s, ATOM)
     if s.startswith("(") and s.endswith(")") and _balanced(s[1:-1]):
         return E(s, ATOM)
+    m = re.fullmatch(r"(.*)\^(\d+)", s)
+    if m and (ident(m.group(1)) or (m.group(1).startswith("(") and m.group(1).endswith(")")
+                                    and _balanced(m.group(1)[1:-1]))):
+        return E(s, APP)     # a power of an atom: binds tighter than * and /
     return E(s, 0)
 
 
@@ -68,7 +72,11 @@ def esub(a, b): return E(f"{a.at(ADD)} - {b.at(MUL)}", ADD)
 def emul(a, b): return E(f"{a.at(MUL)} * {b.at(APP)}", MUL)
 def ediv(a, b): return E(f"{a.at(MUL)} / {b.at(APP)}", MUL)
 def eneg(a): return E(f"-{a.at(APP)}", ADD)
-def eabs(a): return E(f"|{a.s}|", ATOM)
+def eabs(a):
+    t = a.s
+    if t.startswith("(") and t.endswith(")") and _balanced(t[1:-1]):
+        t = t[1:-1]
+    return E(f"|{t}|", ATOM)
 def epow(a, n): return E(f"{a.at(ATOM)}^{n}", ATOM)
 def app(f, *xs): return E(" ".join([f] + [mk(x).at(ATOM) for x in xs]), APP)
 
@@ -446,6 +454,16 @@ def one_axis():
         "polarLaplace",
         [(f"polarLaplace {RAD} h {S} i", f"{th.D(2, s, 0)} + {th.D(1, s, 0)} / ρ",
           add(th.d2(s), div(th.d1c(s), "ρ")))], th=th))
+
+    for central, nm in ((True, "d1sq_smooth"), (False, "d1sq_onesided_smooth")):
+        th = Thm(g)
+        T.append(theorem(
+            nm, "the model's squared first derivative (`gradient_squared` building block), "
+            + ("`central=True`: error at most `(M3/6)(M3 h²/6 + 2|f'|) h²`" if central else
+               "`central=False` (mean of the squared forward and backward differences): still second order, "
+               "error at most `((M3/6)(M3 h²/6 + 2|f'|) + M2²/4) h²`"), g, "d1sq",
+            [(f"d1sq {'true' if central else 'false'} h {S} [i] 0", f"({th.D(1, s, 0)})^2", th.d1sq(central, s, 0))],
+            need_r=False, th=th))
 
     for fam in ("polar", "sph"):
         th = Thm(g)
